@@ -631,6 +631,17 @@ func TestC04Linearizable(t *testing.T) {
 			out := applyLin(b, w, op)
 			ops = append(ops, porcupine.Operation{ClientId: 0, Input: op, Call: c, Output: out, Return: clock.Add(1)})
 		}
+		// whatever thresholds the history left behind (they may be huge): a Send must return, not panic
+		for _, et := range linETs {
+			func() {
+				defer func() {
+					if r := recover(); r != nil {
+						t.Fatalf("VIOLATION C04: Send(%q) panicked after the history (thresholds are accepted values): %v", et, r)
+					}
+				}()
+				_, _ = b.Send(context.Background(), eventlogger.EventType(et), "probe")
+			}()
+		}
 		res := porcupine.CheckOperationsTimeout(linModel, ops, 10*time.Second)
 		var hist []string
 		overl := 0
